@@ -67,6 +67,17 @@ claim('C10', 'kani',
       'Not decided: presence/shape of stack maps in emitted code, slot ranges, `.s` metadata, arm64, optimizing generator.',
       'DESIGN.md §4 C10')
 
+claim('C09', 'verus',
+      'contract-based deductive verification (Verus) of the real ObjectHashMap (the address-keyed wait table), extracted mechanically on every run',
+      'Clause decided: the wait lists keep their entries "also when collections move the mutex and condition objects while threads are queued on them" - the sequential core: '
+      'ObjectHashMap::{new, with_capacity, get, insert, remove, rehash, maybe_rehash_*} carry Verus contracts against an abstract map (domain + value predicates) around a representation invariant '
+      '(power-of-two capacity, exact live/tombstone counts, load factor incl. tombstones, unique keys, no EMPTY slot on any probe path unless the GC epoch changed). Proved for all tables, keys and operation histories: '
+      'every operation implements map semantics on ALL keys, every probe loop terminates, and a table whose keys were rewritten by a moving collection is rehashed before it is probed. '
+      'The proof attempt exposed a genuine hang (tombstone exhaustion), repaired in /repo by a fix: commit; the unit verifies on the repaired tree.',
+      'Trusted: Verus/Z3, vstd, rewrites N1-N8, assumed std contracts in evidence.trusted_base, assumptions about the collector (keys stay distinct, epoch bump, no GC under the lock). '
+      'NOT decided: mutual exclusion, lost wake-ups, join, thread queue links, atomics in generated code - interleaving properties are outside this technique.',
+      'DESIGN.md §4 C09')
+
 NA_REASONS = {
  'C01': 'quantifies over all programs and the behaviour of emitted machine code of two generators (one written in Dora); no function contract can state it',
  'C02': 'relational property between two compilers over all programs and run-time values; memory safety of generated code is not a property of a Rust function',
